@@ -798,6 +798,9 @@ func (g *rgen) cond() string {
 	if g.m > 1 {
 		c = append(c, "T1")
 	}
+	if g.r.Chance(1, 12) {
+		return g.r.Pick([]string{"Nope", "String", "In"}) // unknown / non-composite type conditions (D-09c regression)
+	}
 	return g.r.Pick(c)
 }
 
